@@ -442,4 +442,161 @@ theorem setItemH_abs (v : Val) (hv : ∀ s, v ≠ .dict s) (ig : List Val) :
         · intro x hxl hx
           rw [hsame' x hxl, hm2o x hxl (fun e => hx (by simp [e]))]
 
+/-! ### `_tree_copy` turns a representation (sharing allowed) into a fresh tree-shaped one -/
+
+theorem set_append_mid {V} (k : String) (r r0 : V) : ∀ (l1 l2 : List (String × V)), k ∉ l1.map (·.1) →
+    DA.set k r (l1 ++ (k, r0) :: l2) = l1 ++ (k, r) :: l2
+  | [], l2, _ => by simp [DA.set]
+  | (l, w) :: l1, l2, h => by
+      have h1 : k ≠ l := by intro e; apply h; simp [e]
+      have h2 : k ∉ l1.map (·.1) := by intro e; apply h; simp [e]
+      simp [DA.set, h1, set_append_mid k r r0 l1 l2 h2]
+
+mutual
+  theorem copyH_abs : ∀ (v : Val) (f : Nat) (m : Mem) (t : Nat) (fp : List Nat),
+      Own false m.heap v (.ptr t) fp → depth v ≤ f → wf v = true →
+      ∃ m' fp', copyH f m t = .ok (m', m.heap.length) ∧
+        Own true m'.heap v (.ptr m.heap.length) fp' ∧ (∀ x ∈ fp', m.heap.length ≤ x)
+    | .dict kvs, f, m, t, fp, h, hd, hw => by
+        simp only [Own, Ref.ptr.injEq] at h
+        obtain ⟨a, nd, fps, e, ha, rfl, _, hk⟩ := h
+        subst e
+        simp only [depth] at hd
+        obtain ⟨f', rfl⟩ : ∃ f', f = f' + 1 := ⟨f - 1, by omega⟩
+        simp only [wf, Bool.and_eq_true, decide_eq_true_eq] at hw
+        have hlt := OwnKVs.lt kvs nd fps hk
+        obtain ⟨m', nd', fp', hkids, hc, hown, hgt⟩ :=
+          copyKids_abs kvs f' (alloc m nd).1 m.heap.length [] [] nd [] fps (by omega) hw.2
+            (OwnKVs.congr kvs nd fps hk fun x hx => by
+              rw [alloc_heap, List.getElem?_append_left (hlt x hx)])
+            hlt (by simp [alloc_heap]) (by simpa [OwnKVs.keys kvs nd fps hk] using hw.1)
+            (by simp [OwnKVs]) (by simp)
+        refine ⟨m', m.heap.length :: fp', ?_, ?_, ?_⟩
+        · simp only [copyH, ha, hkids]
+        · simp only [Own, Ref.ptr.injEq]
+          refine ⟨_, nd', fp', rfl, hc, rfl, fun _ hm => ?_, by simpa using hown⟩
+          have := hgt _ hm
+          omega
+        · intro x hx
+          rcases List.mem_cons.1 hx with rfl | hx
+          · exact Nat.le_refl _
+          · exact Nat.le_of_lt (hgt x hx)
+    | .cell _, _, _, _, _, h, _, _ => by simp [Own] at h
+    | .list _, _, _, _, _, h, _, _ => by simp [Own] at h
+    | .tuple _, _, _, _, _, h, _, _ => by simp [Own] at h
+  /-- the loop over the items of the fresh copy `c`: `doneNd` are the entries already processed (fresh,
+  tree-shaped), `restNd` the entries still pointing into the original -/
+  theorem copyKids_abs : ∀ (kvs : List (String × Val)) (f : Nat) (m : Mem) (c : Nat)
+      (doneKvs : List (String × Val)) (doneNd restNd : Node) (fpd fpr : List Nat),
+      depthKVs kvs ≤ f → wfKVs kvs = true →
+      OwnKVs false m.heap kvs restNd fpr → (∀ x ∈ fpr, x < c) →
+      m.heap[c]? = some (doneNd ++ restNd) → ((doneNd ++ restNd).map (·.1)).Nodup →
+      OwnKVs true m.heap doneKvs doneNd fpd → (∀ x ∈ fpd, c < x) →
+      ∃ m' nd' fp', copyKids (copyH f) c m restNd = .ok m' ∧ m'.heap[c]? = some nd' ∧
+        OwnKVs true m'.heap (doneKvs ++ kvs) nd' fp' ∧ (∀ x ∈ fp', c < x)
+    | [], f, m, c, doneKvs, doneNd, restNd, fpd, fpr, _, _, hr, _, hc, _, hdone, hgt => by
+        simp only [OwnKVs] at hr
+        obtain ⟨rfl, rfl⟩ := hr
+        exact ⟨m, doneNd, fpd, by simp [copyKids], by simpa using hc, by simpa using hdone, hgt⟩
+    | (k, v) :: kvs, f, m, c, doneKvs, doneNd, restNd, fpd, fpr, hd, hw, hr, hfpr, hc, hnd, hdone, hgt => by
+        simp only [OwnKVs] at hr
+        obtain ⟨r, restNd', fp1, fp2, rfl, rfl, h1, h2, _⟩ := hr
+        simp only [depthKVs] at hd
+        simp only [wfKVs, Bool.and_eq_true] at hw
+        have hclt : c < m.heap.length := getElem?_lt hc
+        have hfpdlt := OwnKVs.lt doneKvs doneNd fpd hdone
+        cases r with
+        | val w =>
+          obtain ⟨rfl, rfl, hleaf⟩ := Own_val h1
+          have hone : OwnKVs true m.heap [(k, v)] [(k, .val v)] ([] ++ []) := by
+            simp only [OwnKVs]
+            exact ⟨.val v, [], [], [], rfl, rfl, (Own_leaf hleaf _ _).2 ⟨rfl, rfl⟩, ⟨rfl, rfl⟩, by simp⟩
+          obtain ⟨m', nd', fp', hk', hc', hown', hgt'⟩ :=
+            copyKids_abs kvs f m c (doneKvs ++ [(k, v)]) (doneNd ++ [(k, .val v)]) restNd' (fpd ++ ([] ++ [])) fp2
+              (by omega) hw.2 h2 (fun x hx => hfpr x (by simp [hx]))
+              (by simpa [List.append_assoc] using hc) (by simpa [List.append_assoc] using hnd)
+              (OwnKVs.append _ _ _ _ _ _ hdone hone (by simp)) (by simpa using hgt)
+          exact ⟨m', nd', fp', by simpa [copyKids] using hk', hc', by simpa [List.append_assoc] using hown', hgt'⟩
+        | ptr b =>
+          obtain ⟨m1, fpc, hcopy, hownc, hfpc⟩ := copyH_abs v f m b fp1 h1 (by omega) hw.1
+          obtain ⟨_, _, hsafe, _⟩ := copyH_spec f m b m1 _ hcopy
+          have hknot : k ∉ doneNd.map (·.1) := by
+            intro hm
+            simp only [List.map_append, List.map_cons] at hnd
+            rw [List.nodup_append] at hnd
+            exact hnd.2.2 k hm k (by simp) rfl
+          have hm2 : ∀ x, x ≠ c → x < m.heap.length →
+              (store m1 c k (.ptr m.heap.length)).heap[x]? = m.heap[x]? := by
+            intro x hxc hxl
+            simp only [store]
+            rw [List.getElem?_modify_ne _ _ (Ne.symm hxc), hsafe.same x hxl]
+          have hm2c : (store m1 c k (.ptr m.heap.length)).heap[c]? =
+              some ((doneNd ++ [(k, .ptr m.heap.length)]) ++ restNd') := by
+            simp only [store, List.getElem?_modify_eq, hsafe.same c hclt, hc, Option.map_eq_map, Option.map_some]
+            rw [set_append_mid k _ _ doneNd restNd' hknot]
+            simp
+          have hone : OwnKVs true (store m1 c k (.ptr m.heap.length)).heap [(k, v)]
+              [(k, .ptr m.heap.length)] (fpc ++ []) := by
+            simp only [OwnKVs]
+            refine ⟨_, [], fpc, [], rfl, rfl, ?_, ⟨rfl, rfl⟩, by simp⟩
+            refine Own.congr v _ fpc hownc fun x hx => ?_
+            simp only [store]
+            rw [List.getElem?_modify_ne]
+            have := hfpc x hx
+            omega
+          obtain ⟨m', nd', fp', hk', hc', hown', hgt'⟩ :=
+            copyKids_abs kvs f (store m1 c k (.ptr m.heap.length)) c (doneKvs ++ [(k, v)])
+              (doneNd ++ [(k, .ptr m.heap.length)]) restNd' (fpd ++ (fpc ++ [])) fp2
+              (by omega) hw.2
+              (OwnKVs.congr kvs restNd' fp2 h2 fun x hx => by
+                have := hfpr x (by simp [hx])
+                exact hm2 x (by omega) (by omega))
+              (fun x hx => hfpr x (by simp [hx])) hm2c
+              (by simpa [List.append_assoc] using hnd)
+              (OwnKVs.append _ _ _ _ _ _
+                (OwnKVs.congr doneKvs doneNd fpd hdone fun x hx => by
+                  have := hgt x hx
+                  exact hm2 x (by omega) (hfpdlt x hx))
+                hone (fun x hx hm => by
+                  have := hfpdlt x hx
+                  have := hfpc x (by simpa using hm)
+                  omega))
+              (fun x hx => by
+                rcases List.mem_append.1 hx with h | h
+                · exact hgt x h
+                · have := hfpc x (by simpa using h); omega)
+          refine ⟨m', nd', fp', ?_, hc', by simpa [List.append_assoc] using hown', hgt'⟩
+          simp only [copyKids, hcopy]
+          exact hk'
+end
+
+/-! ### the loop of `items_to_tree` -/
+
+mutual
+  theorem items_snd_leaf : ∀ (v : Val) (pv : Path × Val), pv ∈ items v → ∀ s, pv.2 ≠ .dict s
+    | .dict kvs, pv, h => itemsKVs_snd_leaf kvs pv (by simpa [items] using h)
+    | .cell _, pv, h => by simp only [items, List.mem_singleton] at h; subst h; intro s e; cases e
+    | .list _, pv, h => by simp only [items, List.mem_singleton] at h; subst h; intro s e; cases e
+    | .tuple _, pv, h => by simp only [items, List.mem_singleton] at h; subst h; intro s e; cases e
+  theorem itemsKVs_snd_leaf : ∀ (kvs : List (String × Val)) (pv : Path × Val), pv ∈ itemsKVs kvs →
+      ∀ s, pv.2 ≠ .dict s
+    | [], pv, h => by simp [itemsKVs] at h
+    | (k, v) :: kvs, pv, h => by
+        simp only [itemsKVs, List.mem_append, List.mem_map] at h
+        rcases h with ⟨q, hq, rfl⟩ | h
+        · exact items_snd_leaf v q hq
+        · exact itemsKVs_snd_leaf kvs pv h
+end
+
+theorem setItemsH_abs (ig : List Val) (c : Nat) : ∀ (its : List (Path × Val)),
+    (∀ pv ∈ its, ∀ s, pv.2 ≠ .dict s) → ∀ (m : Mem) (kvs : List (String × Val)) (fp : List Nat),
+    Own true m.heap (.dict kvs) (.ptr c) fp →
+    ∃ fp', Own true (setItemsH m c its ig).heap (.dict (build ig its kvs)) (.ptr c) fp'
+  | [], _, m, kvs, fp, h => ⟨fp, h⟩
+  | (p, v) :: its, hl, m, kvs, fp, h => by
+      obtain ⟨fp1, h1, _⟩ := setItemH_abs v (hl (p, v) (by simp)) ig p m c kvs fp h
+      obtain ⟨fp2, h2⟩ := setItemsH_abs ig c its (fun pv hm => hl pv (by simp [hm]))
+        (setItemH m c p v ig) (setKVs kvs p v ig) fp1 h1
+      exact ⟨fp2, by simpa [setItemsH, build] using h2⟩
+
 end Pyg.TreeHeap
